@@ -126,6 +126,51 @@ Definition sf_name (k : sfkind) : str :=
 (* column types Snowflake DDL and queries can give a table here: everything but the nanosecond timestamp (only reachable through DuckDB syntax) *)
 Definition column_dom (t : dtype) : bool := match t with DTimestampNs => false | _ => true end.
 
+(* ---- the same metadata, computed the way types.py:describe_as_rowtype writes it: the dict gives the Snowflake type name, then an
+   if/elif chain over the DuckDB type text and that name fills in precision / scale / length. The chain is data here (meta_rules), compared
+   with the source's chain on every run (generated theorem meta_rules_match_source), and proved to give sf_meta (sf_meta_by_rules). ---- *)
+Inductive rcond := CDecimal | CTypeIs (s : str) | CTypePrefix (s : str).
+Inductive rval := RFromType (default_p default_s : Z)        (* precision, scale read from the type text "DECIMAL(p,s)" *)
+                | RConst (p s len : option Z).               (* len = byteLength = length *)
+Definition meta_rules : list (rcond * rval) :=
+  [(CDecimal, RFromType 38 0);
+   (CTypeIs (lit "fixed"), RConst (Some 38) (Some 0) None);
+   (CTypeIs (lit "text"), RConst None None (Some 16777216));
+   (CTypePrefix (lit "time"), RConst (Some 0) (Some 9) None);
+   (CTypeIs (lit "binary"), RConst None None (Some 8388608))].
+
+Fixpoint lookup_table (l : list (str * str)) (k : str) : option str :=
+  match l with [] => None | (a, b) :: r => if str_eqb a k then Some b else lookup_table r k end.
+Definition kind_of_name (n : str) : option sfkind :=
+  if str_eqb n (lit "fixed") then Some Fixed else if str_eqb n (lit "real") then Some Real else if str_eqb n (lit "text") then Some Text
+  else if str_eqb n (lit "date") then Some SfDate else if str_eqb n (lit "time") then Some SfTime
+  else if str_eqb n (lit "timestamp_ntz") then Some TsNtz else if str_eqb n (lit "timestamp_tz") then Some TsTz
+  else if str_eqb n (lit "binary") then Some Binary else if str_eqb n (lit "variant") then Some Variant
+  else if str_eqb n (lit "boolean") then Some SfBoolean else None.
+Definition rule_hit (t : dtype) (sf : str) (c : rcond) : bool :=
+  match c with CDecimal => is_decimal t | CTypeIs s => str_eqb sf s | CTypePrefix s => prefixb s sf end.
+Definition rule_value (t : dtype) (v : rval) : option Z * option Z * option Z :=
+  match v with
+  | RFromType dp ds => match t with DDecimal p s => (Some p, Some s, None) | _ => (Some dp, Some ds, None) end
+  | RConst p s len => (p, s, len)
+  end.
+Definition sf_meta_rules (t : dtype) : option meta :=
+  match duck_base t with
+  | None => None
+  | Some b =>
+      match lookup_table table b with
+      | None => None
+      | Some sf =>
+          match kind_of_name sf with
+          | None => None
+          | Some k =>
+              let '(p, s, len) := match find (fun r => rule_hit t sf (fst r)) meta_rules with
+                                  | Some r => rule_value t (snd r) | None => (None, None, None) end in
+              Some (mk k p s len)
+          end
+      end
+  end.
+
 (* ---- sexp ---- *)
 Definition dec_dtype (x : sexp) : option dtype :=
   match x with
